@@ -41,6 +41,7 @@ type Violation struct {
 
 type Result struct {
 	Prop       string                 `json:"prop"`
+	Engine     string                 `json:"engine"`
 	Scenario   string                 `json:"scenario"`
 	Desc       string                 `json:"desc"`
 	Shard      int                    `json:"shard"`
@@ -246,7 +247,7 @@ func main() {
 		fmt.Fprintf(os.Stderr, "unknown part %s/%s\n", *prop, *part)
 		os.Exit(2)
 	}
-	res := &Result{Prop: pt.Prop, Scenario: pt.Name, Desc: pt.Desc, Shard: *shard, NShards: *nshards, Outcomes: map[string]int64{}, Rule: pt.Rule}
+	res := &Result{Prop: pt.Prop, Engine: "B", Scenario: pt.Name, Desc: pt.Desc, Shard: *shard, NShards: *nshards, Outcomes: map[string]int64{}, Rule: pt.Rule}
 	c := &Ctx{Tier: *tier, Shard: *shard, NShards: *nshards, res: res, viol: map[string]bool{}, curFile: os.Getenv("VERIF_CURFILE"), MaxViol: 40}
 	start := time.Now()
 	if *budget > 0 {
